@@ -80,15 +80,16 @@ func vTryOpenC29(e *vEnv, pw, hint string) vOpenC29 {
 
 // vWorldC29 is the model plus the credentials in use.
 type vWorldC29 struct {
-	pwOf   map[string]string // key id -> password, for every key file ever created in this case
-	order  []string          // key ids in creation order (current and removed)
-	cands  []string          // candidate passwords tried against every state
-	master string            // JSON of the master key of the repository
-	cfgID  string
-	curPw  string // credentials the next command runs with
-	hint   string // key hint the next command runs with ("" = none)
-	seen   map[string]bool
-	opens  int
+	pwOf           map[string]string // key id -> password, for every key file ever created in this case
+	order          []string          // key ids in creation order (current and removed)
+	cands          []string          // candidate passwords tried against every state
+	master         string            // JSON of the master key of the repository
+	cfgID          string
+	curPw          string // credentials the next command runs with
+	hint           string // key hint the next command runs with ("" = none)
+	ambiguousHints int
+	seen           map[string]bool
+	opens          int
 }
 
 func (w *vWorldC29) current(s *vbe.Store) []string { return s.Keys(backend.KeyFile) }
@@ -172,6 +173,41 @@ func vCheckStateC29(w *vWorldC29, e *vEnv, s *vbe.Store, where string) error {
 			}
 			if r2.ok != r.ok {
 				return fmt.Errorf("%s: password %q: open without hint ok=%v, with hint %s (a key of another password) ok=%v: %v", where, pw, r.ok, h[:8], r2.ok, r2.err)
+			}
+		}
+		// an ambiguous hint (a prefix shared by several key ids, here one hex digit) and a hint that
+		// names no key must not change the outcome either: restic then tries all keys
+		if n <= vMaxKeysC29 {
+			byDigit := map[byte][]string{}
+			for _, k := range keys {
+				byDigit[k[0]] = append(byDigit[k[0]], k)
+			}
+			amb := ""
+			for _, h := range holders { // prefer a digit shared with a key that holds this password
+				if len(byDigit[h[0]]) >= 2 {
+					amb = h[:1]
+				}
+			}
+			if amb == "" {
+				for d, ks := range byDigit {
+					if len(ks) >= 2 && (amb == "" || string(d) < amb) {
+						amb = string(d)
+					}
+				}
+			}
+			hints := []string{"0123456789abcdef0123456789abcdef0123456789abcdef0123456789abcdef"}
+			if amb != "" {
+				hints = append(hints, amb)
+				w.ambiguousHints++
+			}
+			for _, h := range hints {
+				r4 := vTryOpenC29(se, pw, h)
+				if err := checkOpen(r4, pw, h); err != nil {
+					return err
+				}
+				if r4.ok != r.ok {
+					return fmt.Errorf("%s: password %q: open without hint ok=%v, with the hint %q (ambiguous or naming no key, %d keys) ok=%v: %v", where, pw, r.ok, h, n, r4.ok, r4.err)
+				}
 			}
 		}
 		// the hinted key opens whatever the number of keys
@@ -570,7 +606,7 @@ func TestVerifC29KeyHistories(t *testing.T) {
 		}
 		st.Case(key, fmt.Sprintf("many=%v", many), fmt.Sprintf("keys>20=%v", over20), fmt.Sprintf("keys=20:%v", exactly20),
 			fmt.Sprintf("empty-password-used=%v", emptyUsed), fmt.Sprintf("passwd-changes-pw-in-use=%v", changedInUse),
-			fmt.Sprintf("prefix-with-old-and-new-key=%v", bothKeys), fmt.Sprintf("npw=%d", npw))
+			fmt.Sprintf("prefix-with-old-and-new-key=%v", bothKeys), fmt.Sprintf("npw=%d", npw), fmt.Sprintf("ambiguous-key-hint-tried=%v", w.ambiguousHints > 0))
 		st.Evals(w.opens)
 		if st.WantSample() {
 			var ks []string
